@@ -9,4 +9,8 @@ MUTANTS = [
  {"id": "tie-break-case-insensitive", "kind": "break", "edits": [(P, "} else if pkg1 < pkg2 {", "} else if pkg1.to_lowercase() < pkg2.to_lowercase() {")], "expect": ["D-PREDICATES"]},
  {"id": "second-candidate-not-matched", "kind": "break", "edits": [(P, "match (self.matches(pkg1), self.matches(pkg2)) {", "match (self.matches(pkg1), self.matches(pkg1) || self.matches(pkg2)) {")], "expect": ["D-"]},
  {"id": "benign-mirrored-comparison", "kind": "benign", "edits": [(P, "} else if dewey_cmp(&d1, &DeweyOp::LT, &d2) {", "} else if dewey_cmp(&d2, &DeweyOp::GT, &d1) {")]},
+
+ {"id": "probe-tie-returns-larger-name", "kind": "break", "edits": [(P, "} else if pkg1 < pkg2 {\n                    Some(pkg1)", "} else if pkg1 > pkg2 {\n                    Some(pkg1)")], "expect": ["D-SELECTION"]},
+ {"id": "probe-both-match-none-on-tie", "kind": "break", "edits": [(P, "} else if pkg1 < pkg2 {\n                    Some(pkg1)\n                } else {\n                    Some(pkg2)\n                }", "} else if pkg1 < pkg2 {\n                    Some(pkg1)\n                } else if pkg1 == pkg2 {\n                    None\n                } else {\n                    Some(pkg2)\n                }")], "expect": ["D-"]},
+ {"id": "probe-version-from-whole-name", "kind": "break", "edits": [(P, "let d1 = DeweyVersion::new(PkgName::new(pkg1).pkgversion());", "let d1 = DeweyVersion::new(PkgName::new(pkg1).pkgname());")], "expect": ["D-"]},
 ]
